@@ -252,7 +252,7 @@ def check_C08(ctx):
     nties = sum(1 for c in cases if len(c["set"]) > 1)
     replay_stage(ctx, "create", "dur-replay", cases, distinct_key=_dur_key)
     ctx.stage("tie coverage", cases_with_several_allowed_results=nties)
-    tp = record_stage(ctx, "durations", "dur-record", [ctx.seed, 150 if q else 3000, "speed"])
+    tp = record_stage(ctx, "durations", "dur-record", [ctx.seed, 150 if q else 15000, "speed"])
     trace_stage(ctx, "duration", S("trace", "Trace_Duration.cfg"), S("trace", "Trace_Duration.tla"), tp, reset_ev="pset")
     ctx.assumptions += ["S->I parameters are multiples of 1/4 (exact in f32/f64); speeds dyadic",
                         "I->S speeds are multiples of 1/1024 so that round(F1/speed) is decided exactly in TLA+; means logged in 1e-6 units"]
@@ -837,7 +837,7 @@ def check_C07(ctx):
     q = ctx.quick()
     mc(ctx, "Excitation", S("mc", "MC_Excitation.cfg" if q else "MC_Excitation_thorough.cfg"), S("mc", "MC_Excitation.tla"), workers=8)
     counts = {}
-    for mode, n in (("exact", 150 if q else 4000), ("pitch", 60 if q else 2000), ("noise", 8 if q else 40), ("mixed", 40 if q else 1000)):
+    for mode, n in (("exact", 150 if q else 20000), ("pitch", 60 if q else 10000), ("noise", 8 if q else 120), ("mixed", 40 if q else 5000)):
         tpath = ctx.path("exc_%s.ndjson" % mode)
         p = run_jbv(["exc-record", mode, ctx.seed, n, tpath], timeout=3600)
         if p.returncode != 0:
